@@ -5,6 +5,11 @@ import pickle
 import sys
 
 
+def pfilter(e, v2):
+    """module-level filter function (pickled by reference): keeps untagged far ends"""
+    return v2 is not None and getattr(v2, "tag", None) is None
+
+
 def canon_walk(root):
     """every edgegraph object reachable from root, in a deterministic order"""
     from edgegraph.structure.base import BaseObject
@@ -65,6 +70,10 @@ def queries(root):
                 res[f"nb{seen[id(o)]}"] = [None if x is None else seen.get(id(x), -1) for x in nb]
                 nb2 = helpers.neighbors(o, direction_sensitive=helpers.DIR_SENS_ANY, unknown_handling=helpers.LNK_UNKNOWN_NEIGHBOR)
                 res[f"nb{seen[id(o)]}again"] = [None if x is None else seen.get(id(x), -1) for x in nb2]
+                import lib.picklesub as _ps
+                nb3 = helpers.neighbors(o, direction_sensitive=helpers.DIR_SENS_ANY, unknown_handling=helpers.LNK_UNKNOWN_NEIGHBOR,
+                                        filterfunc=_ps.pfilter)
+                res[f"nb{seen[id(o)]}filtered"] = [None if x is None else seen.get(id(x), -1) for x in nb3]
             except Exception as e:  # noqa: BLE001
                 res[f"nb{seen[id(o)]}"] = "raise " + type(e).__name__
     if isinstance(root, Universe) and root.vertices:
